@@ -2176,7 +2176,8 @@ ure_exec(ure_dfa_t dfa, int flags, ucs2_t *text, unsigned long textlen,
   int i, j, matched, found, skip;
   unsigned long ms, me;
   ucs4_t c;
-  ucs2_t *sp, *ep, *lp;
+  ucs2_t *sp, *ep, *lp, *as;
+  unsigned long la_ms, la_me;
   _ure_dstate_t *stp;
   _ure_symtab_t *sym;
   _ure_range_t *rp;
@@ -2197,9 +2198,19 @@ ure_exec(ure_dfa_t dfa, int flags, ucs2_t *text, unsigned long textlen,
 
   ms = me = ~0;
 
+  /*
+   * Start of the current match attempt, and the last position where
+   * this attempt was in an accepting state.
+   */
+  as = sp;
+  la_ms = la_me = ~0;
+
   stp = dfa->states;
 
   for (found = skip = 0; found == 0 && sp < ep; ) {
+    if (ms == (unsigned long) ~0)
+      as = sp;
+
     lp = sp;
     c = *sp++;
 
@@ -2292,6 +2303,15 @@ ure_exec(ure_dfa_t dfa, int flags, ucs2_t *text, unsigned long textlen,
 	stp = dfa->states + stp->trans[i].next_state;
 
 	/*
+	 * Remember the longest match of this attempt.  An empty match,
+	 * for example of "^" or "a*", is no occurrence of the pattern.
+	 */
+	if (stp->accepting && me > ms) {
+	  la_ms = ms;
+	  la_me = me;
+	}
+
+	/*
 	 * If the match was an EOL anchor, adjust the pointer past the
 	 * separator that caused the match.  The correct match
 	 * position has been recorded already.
@@ -2312,44 +2332,60 @@ ure_exec(ure_dfa_t dfa, int flags, ucs2_t *text, unsigned long textlen,
     }
 
     if (matched == 0) {
-      if (stp->accepting == 0) {
+      if (la_ms != (unsigned long) ~0) {
 	/*
-	 * If the last state was not accepting, then reset
-	 * and start over.
+	 * This attempt passed through an accepting state, so
+	 * terminate the matching loop with the longest match seen.
 	 */
+	ms = la_ms;
+	me = la_me;
+	found = 1;
+      } else {
+	/*
+	 * The attempt failed, reset and start over one character
+	 * after the start of the failed attempt.
+	 */
+	if (ms != (unsigned long) ~0)
+	  sp = as + 1;
 	stp = dfa->states;
 	ms = me = ~0;
-      } else
-	/*
-	 * The last state was accepting, so terminate the matching
-	 * loop to avoid more work.
-	 */
-	found = 1;
+      }
     } else if (sp == ep) {
-      if (!stp->accepting) {
+      if (!stp->accepting && !(flags & URE_NOTEOL)) {
 	/*
 	 * This ugly hack is to make sure the end-of-line anchors
 	 * match when the source text hits the end.  This is only done
 	 * if the last subexpression matches.
 	 */
-	for (i = 0; found == 0 && i < stp->ntrans; i++) {
+	for (i = 0; i < stp->ntrans; i++) {
 	  sym = dfa->syms + stp->trans[i].symbol;
 	  if (sym->type ==_URE_EOL_ANCHOR) {
 	    stp = dfa->states + stp->trans[i].next_state;
-	    if (stp->accepting) {
-	      me = sp - text;
-	      found = 1;
-	    } else
-	      break;
+	    if (stp->accepting && (unsigned long)(sp - text) > ms) {
+	      la_ms = ms;
+	      la_me = sp - text;
+	    }
+	    break;
 	  }
 	}
-      } else {
+      }
+
+      if (la_ms != (unsigned long) ~0) {
 	/*
 	 * Make sure any conditions that match all the way to the end
 	 * of the string match.
 	 */
+	ms = la_ms;
+	me = la_me;
 	found = 1;
-	me = sp - text;
+      } else if (as + 1 < ep) {
+	/*
+	 * The text ended in the middle of an attempt, a later
+	 * start may still match.
+	 */
+	sp = as + 1;
+	stp = dfa->states;
+	ms = me = ~0;
       }
     }
   }
